@@ -146,7 +146,7 @@ class LoggingHeap(core.Heap):
         if kind == "real":
             fm = self._scal(field, kind)
             cur = fm.read(ref)
-            d = z3.simplify(to_real(val) - cur)
+            d = delta_of(val, cur)
             if not self._decl_mentioned(d, ("scal", field, kind)):
                 inc = lambda d=d: d
         self.log.append(dict(kind="scal", field=field, skind=kind, ref=ref, guard=None, val=(lambda val=val: val), inc=inc))
@@ -155,7 +155,7 @@ class LoggingHeap(core.Heap):
     def write_a1(self, field, ref, i, val, cond=True):
         fm = self._a1(field)
         cur = fm.read(ref, i)
-        d = z3.simplify(to_real(val) - cur)
+        d = delta_of(val, cur)
         inc = None
         if not self._decl_mentioned(d, ("a1", field)):
             inc = lambda j, d=d: d
@@ -165,7 +165,7 @@ class LoggingHeap(core.Heap):
     def write_a1_where(self, field, ref, idx_guard, valf, cond=True):
         fm = self._a1(field)
         jj = fresh("j", z3.IntSort())
-        d = z3.simplify(to_real(valf(jj)) - fm.read(ref, jj))
+        d = delta_of(valf(jj), fm.read(ref, jj))
         inc = None
         if not self._decl_mentioned(d, ("a1", field)):
             inc = lambda j, d=d, jj=jj: z3.substitute(d, (jj, to_z3num(j)))
@@ -179,12 +179,24 @@ class LoggingHeap(core.Heap):
         fm = self._a2(field)
         ii = fresh("i", z3.IntSort())
         cc = fresh("c", z3.IntSort())
-        d = z3.simplify(to_real(valf(ii, cc)) - fm.read(ref, ii, cc))
+        d = delta_of(valf(ii, cc), fm.read(ref, ii, cc))
         inc = None
         if not self._decl_mentioned(d, ("a2", field)):
             inc = lambda i, c, d=d, ii=ii, cc=cc: z3.substitute(d, (ii, to_z3num(i)), (cc, to_z3num(c)))
         self.log.append(dict(kind="a2", field=field, ref=ref, guard=guard_ij, val=valf, inc=inc))
         core.Heap.write_a2_where(self, field, ref, guard_ij, valf, cond)
+
+
+def delta_of(t, base):
+    """t - base with the subtraction pushed through if-then-else (z3's simplifier does not hoist it)"""
+    t = to_real(t) if not is_z3(t) or z3.is_arith(t) else t
+    if is_z3(t) and z3.is_app(t) and t.decl().kind() == z3.Z3_OP_ITE:
+        c, a, b = t.children()
+        da, db = delta_of(a, base), delta_of(b, base)
+        if da.eq(db):
+            return da
+        return z3.If(c, da, db)
+    return z3.simplify(to_real(t) - base)
 
 
 def mark_heap(heap):
@@ -357,7 +369,7 @@ class Summariser:
                     return self.run()  # restart with the promoted accumulator
                 numeric = all(o is not None and (is_z3(o) and z3.is_arith(o) or isinstance(o, (int, float))) for _, o in outs)
                 if numeric:
-                    deltas = [(c, simp(to_real(o) - p)) for c, o in outs]
+                    deltas = [(c, delta_of(o, p)) for c, o in outs]
                     if not any(core.contains(d, p) for _, d in deltas):
                         self.scalar_acc[name] = self._merge(deltas)
                         continue
@@ -642,7 +654,7 @@ class Summariser:
             f = self.ph[name]
             i = fresh("i", z3.IntSort())
             merged = self._merge([(c, to_real(g(i))) for c, g in outs])
-            d = simp(merged - f(i))
+            d = delta_of(merged, f(i))
             if not self._mentions_fn(d, f):
                 if z3.is_rational_value(d) and d.numerator_as_long() == 0:
                     continue
@@ -756,11 +768,11 @@ class Summariser:
                 i = fresh("i", z3.IntSort())
                 got = merged(lambda p: p.heap.read_a1(field, r, i))
                 want = heapn.read_a1(field, r, i)
-                goal = got == want
+                goal = z3.Implies(z3.And(0 <= i, i < heapn.len_a1(field, r)), got == want)  # cells outside the array do not exist
             else:
                 i = fresh("i", z3.IntSort())
                 c = fresh("c", z3.IntSort())
                 got = merged(lambda p: p.heap.read_a2(field, r, i, c))
                 want = heapn.read_a2(field, r, i, c)
-                goal = got == want
+                goal = z3.Implies(z3.And(0 <= i, i < heapn.rows_a2(field, r), 0 <= c, c < heapn.cols_a2(field, r)), got == want)
             it.oblige("loop-step", "%s/heap:%s" % (self.tag, field), goal, self.line, pre_note)
